@@ -18,12 +18,14 @@ namespaces in scope, every described text run verbatim at its position.  White s
 the document did not describe (indentation) is ignored; a predicted ERROR must be an
 error."""
 import base64
+import hashlib
 import json
 import os
 import random
 import re
 import shutil
 import time
+import zlib
 
 from . import common as C
 from . import xmlmodel as X
@@ -374,6 +376,7 @@ def work(h, chunk):
                 reqs.append({"op": "eval", "src": head + "let s = convert xml v;\nout xml v;\n"})
         prepared.append((obj, seed, cid, rf, val, exp, plan, prog))
     resps = h.batch(reqs)
+    kept = {}
     for obj, seed, cid, rf, val, exp, plan, prog in prepared:
         alts = obj.get("alts", [])
         n_checked = 0
@@ -422,9 +425,13 @@ def work(h, chunk):
             verdicts.append(verdict)
             if verdict == "dev":
                 for key in info[0]:
-                    rows.append(("dev", key, mk_case(obj, seed, val, oroute, exp, obs, info[1], src)))
+                    kept[key] = kept.get(key, 0) + 1
+                    rows.append(("dev", key, mk_case(obj, seed, val, oroute, exp, obs, info[1], src)
+                                 if kept[key] <= 2 else {"note": "same deviation as an earlier case of this run"}))
             elif verdict == "bad":
-                rows.append(("bad", mk_case(obj, seed, val, oroute, exp, obs, info, src)))
+                kept[None] = kept.get(None, 0) + 1
+                rows.append(("bad", mk_case(obj, seed, val, oroute, exp, obs, info, src) if kept[None] <= 20 else
+                             {"route": oroute, "why": info, "value": {}, "note": "case not kept"}))
             elif alts and oroute == "direct":
                 rows.append(("stale", ",".join(sorted(max(alts, key=lambda a: len(a["keys"]))["keys"])),
                              json.dumps(val, ensure_ascii=False)[:600]))
@@ -560,14 +567,51 @@ def main(tier, replay=None):
 
     states = trans = 0
     cmds = []
-    seen = set()
+    seen = set()             # digests of the REPLAY payloads replayed so far
     used_all = set()
     sim_dropped = 0
+    n_cases = 0
+    first_case = None
+    evals = 0
+    nontriv = set()
+    samples = []
+    dev_samples = []
+    devcount = {}
+    clusters = {}
+    stale = {}
+    bydepth = {}
+    bykind = {}
+    prog_states = {}
+
+    def consume(rows):
+        nonlocal evals
+        for x in rows:
+            if x[0] == "bad":
+                rep.disagree(x[1], key=None)
+                sig = x[1]["route"].split(":")[0] + ": " + re.sub(
+                    r"[0-9]+", "N", re.sub(r"'[^']*'|\"[^\"]*\"", "S", str(x[1]["why"])))[:100]
+                clusters.setdefault(sig, []).append(x[1])
+            elif x[0] == "dev":
+                devcount[x[1]] = devcount.get(x[1], 0) + 1
+                rep.disagree(x[2], key=x[1])
+            elif x[0] == "stale":
+                vs = stale.setdefault(x[1], [0, x[2]])
+                vs[0] += 1
+            else:
+                _, n, pstate, nodes, vid, k, sample, dep, lenient = x
+                evals += n
+                prog_states[pstate] = prog_states.get(pstate, 0) + 1
+                bydepth[str(dep)] = bydepth.get(str(dep), 0) + 1
+                bykind[k + ("/lenient" if lenient else "")] = bykind.get(k + ("/lenient" if lenient else ""), 0) + 1
+                if nodes >= 2:
+                    nontriv.add(vid)
+                if sample and len(samples) + len(dev_samples) < 400:
+                    (dev_samples if sample["deviations"] else samples).append(sample)
+
+    digest = lambda raw: hashlib.blake2b(raw.encode(), digest_size=10).digest()
     for kind, name, num, depth, what in runs:
-        before = len(seen)
         count = [0]
         used_raw = set()
-
         fresh = set()
 
         def on_raw(raw, count=count, used_raw=used_raw, fresh=fresh):
@@ -575,7 +619,8 @@ def main(tier, replay=None):
                 used_raw.add(raw)
                 return
             count[0] += 1
-            if raw not in seen:
+            # the payload of a REPLAY line is a function of the document: distinct payloads = distinct documents
+            if raw not in fresh and digest(raw) not in seen:
                 fresh.add(raw)
         r = C.run_tlc("MC_Xml", name, workers=6, simulate=num, depth=depth, gendir=gd, timeout=3000, heap="4g",
                       on_raw=on_raw)
@@ -590,11 +635,9 @@ def main(tier, replay=None):
         # declaration variants of a finished tree): replay a seeded subsample of what is new
         cap = None if kind == "mc" else (10000 if tier == "quick" else 30000)
         if cap is not None and len(fresh) > cap:
-            import zlib
             ranked = sorted(fresh, key=lambda raw: (zlib.crc32(("%d:" % sd).encode() + raw.encode()), raw))
             sim_dropped += len(fresh) - cap
             fresh = set(ranked[:cap])
-        seen |= fresh
         used = set()
         for raw in used_raw:
             used |= set(C.parse_replay_payload(raw)["used"])
@@ -602,66 +645,43 @@ def main(tier, replay=None):
         missing = [f for f in X.CFG_FEATURES[name] if f not in used]
         if missing and kind == "mc":     # e.g. a prefixed name costs two units (declaration + name)
             C.log("[c12] %s: features out of reach of this configuration: %s" % (name, missing))
-        C.log("[c12] %s: %d states, %d documents (%d new), %d/%d features used, %.0fs"
-              % (what[:100], r.distinct or r.generated, count[0], len(seen) - before, len(used),
-                 len(X.CFG_FEATURES[name]), r.wall))
+        cases = sorted(fresh)                                            # determinism per seed
+        fresh = None
+        for raw in cases:
+            seen.add(digest(raw))
+        if cases and first_case is None:
+            first_case = cases[0]
+        t1 = time.time()
+        items = [(o, sd, alter_demo and n_cases + i == 7, tier) for i, o in enumerate(cases)]
+        n_cases += len(cases)
+        consume(C.proc_map(hp, work, items, chunk=300, workers=6, timeout=60.0))
+        C.log("[c12] %s: %d states, %d documents (%d new), %d/%d features used, TLC %.0fs, replay %.0fs"
+              % (what[:100], r.distinct or r.generated, count[0], len(cases), len(used),
+                 len(X.CFG_FEATURES[name]), r.wall, time.time() - t1))
+        items = cases = None
     shutil.rmtree(gd, ignore_errors=True)
-    if not seen:
+    if not n_cases:
         raise C.ToolError("TLC emitted no document (vacuous run)")
     never = [f for f in X.ALL_FEATURES if f not in used_all]
     if never:
         raise C.ToolError("vacuous: generator features never used in this run: %s" % never)
-    # the payload of a REPLAY line is a function of the document: distinct payloads = distinct documents
-    cases = sorted(seen)                                                 # determinism per seed
-
-    items = [(o, sd, alter_demo and i == 7, tier) for i, o in enumerate(cases)]
-    rows = C.proc_map(hp, work, items, chunk=300, workers=6, timeout=60.0)
-    evals = 0
-    nontriv = set()
-    samples = []
-    dev_samples = []
-    devcount = {}
-    clusters = {}
-    stale = {}
-    bydepth = {}
-    bykind = {}
-    prog_states = {}
-    for x in rows:
-        if x[0] == "bad":
-            rep.disagree(x[1], key=None)
-            sig = x[1]["route"].split(":")[0] + ": " + re.sub(r"[0-9]+", "N", re.sub(r"'[^']*'|\"[^\"]*\"", "S", str(x[1]["why"])))[:100]
-            clusters.setdefault(sig, []).append(x[1])
-        elif x[0] == "dev":
-            devcount[x[1]] = devcount.get(x[1], 0) + 1
-            rep.disagree(x[2], key=x[1])
-        elif x[0] == "stale":
-            stale.setdefault(x[1], []).append(x[2])
-        else:
-            _, n, pstate, nodes, vid, k, sample, dep, lenient = x
-            evals += n
-            prog_states[pstate] = prog_states.get(pstate, 0) + 1
-            bydepth[str(dep)] = bydepth.get(str(dep), 0) + 1
-            bykind[k + ("/lenient" if lenient else "")] = bykind.get(k + ("/lenient" if lenient else ""), 0) + 1
-            if nodes >= 2:
-                nontriv.add(vid)
-            if sample:
-                (dev_samples if sample["deviations"] else samples).append(sample)
     for sig, cs in sorted(clusters.items(), key=lambda kv: -len(kv[1]))[:40]:
         C.log("[c12] unexplained x%d: %s   e.g. %s -> %r" % (len(cs), sig, json.dumps(cs[0]["value"], ensure_ascii=False)[:300],
                                                      cs[0].get("observed", "")[:200]))
     for k, n in sorted(devcount.items()):
         C.log("[c12] recorded deviation %s observed on %d observation(s)" % (k, n))
     stale_by_key = {}
-    for k, vs in stale.items():
+    for k, (n, eg) in stale.items():
         for key in k.split(","):
-            stale_by_key.setdefault(key, []).extend(vs)
-    for k, vs in sorted(stale_by_key.items()):
-        C.log("[c12] deviation %s predicted but the property held on %d document(s), e.g. %s" % (k, len(vs), vs[0][:300]))
+            e = stale_by_key.setdefault(key, [0, eg])
+            e[0] += n
+    for k, (n, eg) in sorted(stale_by_key.items()):
+        C.log("[c12] deviation %s predicted but the property held on %d document(s), e.g. %s" % (k, n, eg[:300]))
 
     code = rep.finish()
     samples = samples[:5] + dev_samples[:3]
     if not samples:
-        o = C.parse_replay_payload(cases[0])
+        o = C.parse_replay_payload(first_case)
         samples = [{"document": X.refine_value(o["doc"], X.Refiner(sd, X.case_id(o["doc"]))), "predicted": o["exp"]["k"]}]
     C.write_evidence(PID, tier, "model_checking", {
         "states": states, "transitions": trans,
@@ -675,14 +695,14 @@ def main(tier, replay=None):
                 "predicts; one evaluation = one (document, route) observation judged; non-trivial = distinct concrete "
                 "document with >= 2 nodes",
         "samples": samples,
-        "documents": len(cases),
+        "documents": n_cases,
         "simulated_documents_not_replayed": sim_dropped,
         "generator_features_used": len(used_all),
         "generator_features": len(X.ALL_FEATURES),
         "documents_by_element_depth": dict(sorted(bydepth.items())),
         "documents_by_predicted_outcome": dict(sorted(bykind.items())),
         "program_route": prog_states,
-        "deviation_predicted_but_property_held": {k: len(v) for k, v in sorted(stale_by_key.items())},
+        "deviation_predicted_but_property_held": {k: v[0] for k, v in sorted(stale_by_key.items())},
         "known_deviation_cases": devcount,
         "exhaustive": False,
         "exhaustive_note": "the mc_* configurations enumerate their bounded document domain completely; string "
